@@ -4,6 +4,7 @@ package c20
 import (
 	"encoding/json"
 	"fmt"
+	"iter"
 	"maps"
 	"sort"
 	"strings"
@@ -86,6 +87,7 @@ type mpol struct {
 type model struct {
 	set  map[cedar.PolicyID]mpol
 	copy map[cedar.PolicyID]mpol // live copy taken by Map()/Collect(All()), nil if none
+	seq  map[cedar.PolicyID]mpol // contents when the kept All() sequence was obtained, nil if none
 }
 
 func (m *model) key() string {
@@ -105,6 +107,10 @@ func (m *model) key() string {
 	if m.copy != nil {
 		sb.WriteString("|copy:")
 		wr(m.copy)
+	}
+	if m.seq != nil {
+		sb.WriteString("|seq:")
+		wr(m.seq)
 	}
 	return sb.String()
 }
@@ -168,6 +174,7 @@ func init() {
 		op{name: "copy=maps.Collect(All())", kind: 6},
 		op{name: "mutate(copy)", kind: 7},
 		op{name: "UnmarshalJSON(fixed doc into self)", kind: 8},
+		op{name: "seq=All() kept for later", kind: 9},
 	)
 }
 
@@ -212,6 +219,7 @@ type exec struct {
 	desc []string
 	ps   *cedar.PolicySet
 	cp   cedar.PolicyMap
+	seq  iter.Seq2[cedar.PolicyID, *cedar.Policy] // an All() sequence obtained earlier from ps
 	m    model
 	pool [nKinds]*cedar.Policy
 	bad  bool
@@ -298,6 +306,31 @@ func (e *exec) observe(after string) {
 	}
 	if e.cp != nil {
 		chk("copy", e.cp, m.copy, false)
+	}
+	if e.seq != nil {
+		// a sequence obtained earlier and iterated now: either the contents when it was
+		// obtained (snapshot) or the current contents (live view) - never a mixture
+		got := maps.Collect(e.seq)
+		same := func(mm map[cedar.PolicyID]mpol) bool {
+			if len(got) != len(mm) {
+				return false
+			}
+			for id, p := range got {
+				w, ok := mm[id]
+				if !ok || p == nil || string(p.MarshalCedar()) != canonText[w.k] {
+					return false
+				}
+			}
+			return true
+		}
+		if !same(m.set) && !same(m.seq) {
+			var ids []string
+			for id := range got {
+				ids = append(ids, string(id))
+			}
+			sort.Strings(ids)
+			e.fail("kept-All-sequence:"+after, fmt.Sprintf("the current contents %v or the contents when All() was called %v", sortedIDs(m.set), sortedIDs(m.seq)), fmt.Sprint(ids))
+		}
 	}
 	// MarshalCedar order
 	wantDoc, _ := cedarDoc(m.set, "")
@@ -401,6 +434,7 @@ func (e *exec) apply(o op) {
 			return
 		}
 		e.ps = nps
+		e.seq, m.seq = nil, nil // another PolicySet object from here on
 		m.set = renum
 	case 3, 4:
 		b, err := ps.MarshalJSON()
@@ -417,6 +451,9 @@ func (e *exec) apply(o op) {
 		if err := target.UnmarshalJSON(b); err != nil {
 			e.fail("UnmarshalJSON-error", "no error", err.Error())
 			return
+		}
+		if target != e.ps {
+			e.seq, m.seq = nil, nil
 		}
 		e.ps = target
 		ns := map[cedar.PolicyID]mpol{}
@@ -448,6 +485,9 @@ func (e *exec) apply(o op) {
 			return
 		}
 		m.set = map[cedar.PolicyID]mpol{"j1": {k: kFA}, "a": {k: kPA}}
+	case 9:
+		e.seq = ps.All()
+		m.seq = cloneM(m.set)
 	}
 }
 
